@@ -819,7 +819,7 @@ public:
 			const_iterator iter = right.find(ref.first);
 			if (iter == right.end())
 				return false;
-			if (!(iter->second == ref.second))
+			if (!(iter->first == ref.first) || !(iter->second == ref.second))
 				return false;
 		}
 		return true;
